@@ -3,6 +3,22 @@
 import json, subprocess
 
 CHECKS = {
+ "C05": dict(level="exploration", design="§4 C05",
+   technique="runtime monitoring: native shadow table inside the same SQLite transaction, bucket listing before/after, request-log counting of version PUTs, decoded stamps per transaction, injected storage errors in COMMIT",
+   text="Programs of 15-45 transactions (failing statements, in-transaction reads, COMMIT / ROLLBACK / COMMIT hitting an injected storage error) on trees of 1-4 levels including small sparse ones: rows and root/ listing after any rollback must equal those before BEGIN, committing transactions write exactly one version object (none when nothing changed), all stamps assigned by one transaction are one value (or the explicit write_time), and the connection is usable after a failed commit.",
+   note="Multi-row statement atomicity inside explicit transactions is not demanded (no savepoints). Visibility to other openers at each request boundary is C04's enumeration. Trusts native SQLite as the shadow."),
+ "C13": dict(level="exploration", design="§4 C13",
+   technique="runtime monitoring: online assertion inside the instrumented store (no PUT/DELETE from a handle whose table was opened readonly) + dump stability across refused writes",
+   text="Read-only tables opened over 0-4 unmerged versions run random programs of queries, refresh, version, changes, vacuum attempts with cutoffs before/between/after all stamps and write attempts inside/outside transactions while writers keep committing; the store asserts online that no mutating request carries the read-only flag, write statements must fail, visible rows must not change across refused operations.",
+   note="The read-only flag travels with the client object hook H1 hands to kv.Open (taken from the table's own options), so the assertion sees every request of the table including temporary diff handles."),
+ "C11": dict(level="exploration", design="§4 C11",
+   technique="runtime monitoring: recorded (version name, rows) pairs re-read later through s3db_changes(from='[]'), the Go API with OnlyVersions and the independent bucket decoder; version-name stability/no-op oracle",
+   text="Histories of 1-4 writers record s3db_version() and the rows after every step; earlier versions are re-read at later steps and all of them at the end, three independent ways, and must return the recorded rows; version names must be stable across no-op steps, change with the contents, and a read-only table must list exactly the unmerged versions.",
+   note="No vacuum in these histories (exempted by the property); retries not generated."),
+ "C12": dict(level="exploration", design="§4 C12",
+   technique="runtime monitoring: inclusion oracle over recorded snapshots for all ordered version pairs + exhaustive single-fault sweep over the request positions of sampled diffs",
+   text="For all ordered pairs of recorded versions (all up to 12, sampled beyond; 'to' omitted included) the rows of s3db_changes must be rows of B with identical values and contain every row of B that is absent from or different in A, without error; for sampled differing pairs an injected storage error at every request position of the diff must give an error or an answer satisfying the same inclusions.",
+   note="R = diff is not demanded. Fault sweep is exhaustive per sampled pair only."),
  "C01": dict(level="exploration", design="§4 C01",
    technique="runtime monitoring: model-free convergence oracle - dumps of all opens that merged the same version set must be equal - under harness-chosen merge permutations (hook H2), withheld/revealed commits, partial merges and re-merged ancestors; request-log quiescence check",
    text="Version sets with 3-6 frontier versions forked from different ancestors are merged under 8 schedules each: every permutation of the version list (all n! up to 4, sampled beyond), intermediate openers committing partial merges, retired ancestors put back, commits revealed one at a time. All dumps must be identical; a second read-write open must issue no PUT under root/ and keep s3db_version(). Exploration: version sets and schedules are sampled; permutations are exhausted for lists up to 4.",
